@@ -232,7 +232,7 @@ def specs(tier, seed):
         # builder-style list API (stream pathbuilder): lists with >= N keys get XxxAny() + With<Key>()
         ("c29b_voc_2", oc, [SU, CP] + PS + [LB % 2], True),
         ("c29b_voc_1", oc, [SU, CP, "-prefer_operational_state"] + PS + [LB % 1], True),
-        ("c29b_voc_w", oc, [CP, "-simplify_wildcard_paths"] + PS + [LB % 2], False),
+        ("c29b_voc_w", oc, [CP, "-simplify_wildcard_paths"] + PS + [LB % 2], True),
     ]
     for name, yf, flags, quick in matrix:
         if quick or tier == "thorough":
